@@ -78,6 +78,8 @@ def run(repo, run, tier):
     from .c02 import stage_tolerance
     stage_tolerance(repo, run, rule_id="C11.6")
     solved_not_predicted(repo, run)
+    from .common import instance_tables_are_class_tables
+    instance_tables_are_class_tables(repo, run, "C11.8")
 
 
 # ------------------------------------------------------------------------------------------------
